@@ -142,6 +142,8 @@ func init() {
 	})
 	reg("(*strings.Builder).copyCheck", noop)
 
+	reg("internal/stringslite.Clone", func(fr *frame, args []value) value { return args[0] })
+	reg("strings.Clone", func(fr *frame, args []value) value { return args[0] })
 	reg("errors.Is", func(fr *frame, args []value) value { return errorsIs(fr, args[0].(iface), args[1].(iface), 0) })
 	reg("errors.As", func(fr *frame, args []value) value {
 		panic(engineAbort{psInconclusive, "errors.As not modelled"})
